@@ -447,7 +447,7 @@ pub static C15: PropDef = PropDef {
     prefixes: &["C15/"],
     rule: "forkprobe: histories (<=20) over {register flag, register_usize(value), register_conditional_shutdown(status 0..255, condition flag), spy action, application stores to the shared flags, deliver (real raise)} on 1-3 of 7 signals (TERM/QUIT/INT/HUP/USR1/USR2/ALRM), flags shared between roles; oracle: a model runs each delivery's actions in registration order against the flag state - flag values after every step, exact wait status at exactly the predicted delivery, no action after a firing shutdown (spy actions write to the report pipe from inside the handler), no atexit hook. Non-trivial = a shutdown is registered and the condition was stored to between deliveries, or >=2 deliveries reached a shutdown action; distinct = the case value",
     assumptions: &["deliveries are generated only for signals the history already registered (the default action would kill the child by design)"],
-    cases: (600, 15_000),
+    cases: (600, 60_000),
     shrink_iters: 300,
     worker,
     replay,
